@@ -63,32 +63,32 @@ def decref (p : Pool) (ref : Nat) : Pool :=
   | some strings => { p with strings := strings, modified := true }
   | none => p
 
+/-- one `(length, refcount)` entry of `_StringPool`; lengths above 65,535 are written with
+the escape `(0, high word)` in front -/
+def encodeEntry (len rc : Nat) : Bytes :=
+  (if len > 65535 then u16le 0 ++ u16le (len / 65536) else []) ++ u16le (len % 65536) ++ u16le rc
+
+/-- the encoded form of every string of the pool, in order; `none` = not modelled -/
+def encodedStrings (p : Pool) : Option (List (Bytes × Nat)) :=
+  p.strings.mapM fun (s, rc) => (Codec.encode p.codepage s).map fun bs => (bs, rc)
+
+def poolHeader (p : Pool) : Res Nat :=
+  match CodePage.id p.codepage with
+  | some n => .ok (if p.longRefs then n.toNat + Gen.longStringRefsBit else n.toNat)
+  | none => .panic "unknown code page"
+
 /-- `write_pool` -/
 def writePool (p : Pool) : Res Bytes := do
-  let id ← match CodePage.id p.codepage with
-    | some n => pure n.toNat
-    | none => .panic "unknown code page"
-  let header := if p.longRefs then id + Gen.longStringRefsBit else id
-  let rec go : List (List Char × Nat) → Bytes → Res Bytes
-    | [], acc => pure acc
-    | (s, rc) :: rest, acc =>
-      match Codec.encode p.codepage s with
-      | none => .err .unmodelled
-      | some bs =>
-        let len := bs.length
-        let pre := if len > 65535 then u16le 0 ++ u16le (len / 65536) else []
-        go rest (acc ++ pre ++ u16le (len % 65536) ++ u16le rc)
-  go p.strings (u32le header)
+  let header ← poolHeader p
+  match encodedStrings p with
+  | none => .err .unmodelled
+  | some es => pure (u32le header ++ es.flatMap fun (bs, rc) => encodeEntry bs.length rc)
 
 /-- `write_data` -/
 def writeData (p : Pool) : Res Bytes :=
-  let rec go : List (List Char × Nat) → Bytes → Res Bytes
-    | [], acc => pure acc
-    | (s, _) :: rest, acc =>
-      match Codec.encode p.codepage s with
-      | none => .err .unmodelled
-      | some bs => go rest (acc ++ bs)
-  go p.strings []
+  match encodedStrings p with
+  | none => .err .unmodelled
+  | some es => pure (es.flatMap (·.1))
 
 /-- entries loop of `StringPoolBuilder::read_from_pool` -/
 def readEntries : Nat → Bytes → List (Nat × Nat) → Res (List (Nat × Nat))
